@@ -212,6 +212,46 @@ def gen_undecodable(rng):
     return c
 
 
+def gen_casadi_mult(rng):
+    """-t casadi with requested models whose .mo stem occurs 0..5 times among the collected files:
+    through several directories holding the same file name, and/or through PATH arguments that
+    reach the same file more than once (directory + explicit file, or the file repeated).  On
+    correct code only the stems occurring exactly once are compiled, so these are cheap."""
+    alld = ["lib", "lib/sub", "more", "more/deep", "extra"]
+    tree = {"dirs": ["lib", "more", "extra", "out"], "files": {"lib/notes.txt": "not modelica\n"}, "bin": {}}
+    stems = rng.sample(["A", "B", "F", "C", "Bx"], rng.randint(1, 3))
+    dir_paths, file_paths, models = set(), [], []
+    for st in stems:
+        cnt = rng.choice([0, 1, 2, 3, 3, 3, 4, 5])
+        mode = rng.choice(["dirs", "repeat", "mixed"]) if cnt >= 2 else "dirs"
+        models.append(st)
+        if cnt == 0:
+            continue
+        if mode == "dirs":
+            for d in rng.sample(alld, cnt):
+                tree["files"]["%s/%s.mo" % (d, st)] = TEMPLATES[st]
+                dir_paths.add(d.split("/")[0])
+        elif mode == "repeat":
+            d = rng.choice(alld)
+            tree["files"]["%s/%s.mo" % (d, st)] = TEMPLATES[st]
+            file_paths += ["%s/%s.mo" % (d, st)] * cnt
+        else:   # one occurrence through its directory, the others as explicit arguments
+            d = rng.choice(alld)
+            tree["files"]["%s/%s.mo" % (d, st)] = TEMPLATES[st]
+            dir_paths.add(d.split("/")[0])
+            file_paths += ["%s/%s.mo" % (d, st)] * (cnt - 1)
+    if rng.random() < 0.3:
+        models.append(rng.choice(["Zed", "Nope"]))
+    if rng.random() < 0.3:
+        models.append(rng.choice(models))
+    rng.shuffle(models)
+    paths = sorted(dir_paths) + file_paths
+    rng.shuffle(paths)
+    if not paths:
+        paths = ["extra"]
+    return assemble(rng, tree, paths, None, "casadi", models, [], "", "casadi-mult")
+
+
 def corpus():
     """Fixed invocations: one per mechanism, so every seed exercises every `errors +=` site."""
     T = TEMPLATES
@@ -254,6 +294,13 @@ def corpus():
     add(tree(lib_c), ["lib", "more"], None, "casadi", ["A"])                 # ambiguous only
     add(tree(lib_c), ["emptydir"], None, "casadi", ["A"])
     add(tree({"lib/A.mo": T["A"], "lib/Bad1.mo": BROKEN["Bad1"]}), ["lib"], None, "casadi", ["A"])
+    # a stem occurring 3 / 4 times (several directories; the same file reached repeatedly)
+    lib_m = {"lib/A.mo": T["A"], "more/A.mo": T["A"], "extra/A.mo": T["A"], "lib/B.mo": T["B"],
+             "lib/F.mo": T["F"], "lib/sub/F.mo": T["F"], "more/F.mo": T["F"], "extra/F.mo": T["F"]}
+    add(tree(lib_m, dirs=["extra"]), ["lib", "more", "extra"], None, "casadi", ["A"])
+    add(tree(lib_m, dirs=["extra"]), ["lib", "more", "extra"], None, "casadi", ["B", "A", "F", "Zed"])
+    add(tree(lib_c), ["lib", "lib/B.mo", "lib/B.mo"], None, "casadi", ["B"])
+    add(tree(lib_c), ["lib/B.mo", "lib/B.mo", "lib/B.mo", "lib/A.mo"], None, "casadi", ["A", "B"], solo=True)
     # usage errors
     add(tree(lib_ok), ["lib", "nope", "zz.mo"], "nonexistent_out", None, ["A"], options=["a=b=c", "ok=1", "novalue"])
     add(tree(lib_ok), ["lib"], "lib/A.mo", "sympy", ["A"])
@@ -597,10 +644,10 @@ def signature(case, res):
                        [[m["res"], sum(m["match"])] for m in f.get("models", [])], res.get("observed", {}).get("exit")])
 
 
-def make_cases(ctx):
+def make_cases(ctx, casadi_bias=False):
     cases = corpus()
     n_corpus = len(cases)
-    n_rand = ctx.scaled(70, 1800)
+    n_rand = ctx.scaled(50, 1800)
     n_casadi = ctx.scaled(6, 120)
     n_arg = ctx.scaled(9, 60)
     n_und = ctx.scaled(2, 12)
@@ -609,13 +656,16 @@ def make_cases(ctx):
                               if ctx.rng.random() < 0.95 else None))
     for _ in range(n_casadi):
         cases.append(gen_case(ctx.rng, scenario=ctx.rng.choice(["models", "models", "usage", "parse"]), target="casadi"))
+    # stems occurring 0..5 times; many more when the casadi skeleton could not be read off the source
+    for _ in range(ctx.scaled(8, 150) + (ctx.scaled(40, 300) if casadi_bias else 0)):
+        cases.append(gen_casadi_mult(ctx.rng))
     for _ in range(n_arg):
         cases.append(gen_argparse_case(ctx.rng))
     for _ in range(n_und):
         cases.append(gen_undecodable(ctx.rng))
     # solo (one -m at a time) runs for a share of the multi-model invocations
     for c in cases[n_corpus:]:
-        if len(c["models"]) >= 2 and c["argparse"] == "ok" and c["scenario"] == "models":
+        if len(c["models"]) >= 2 and c["argparse"] == "ok" and c["scenario"] in ("models", "casadi-mult"):
             c["solo"] = ctx.rng.random() < (0.5 if c["target"] != "casadi" else 0.2)
     return cases, n_corpus
 
@@ -626,7 +676,7 @@ def run(ctx):
                              {"main", "translate", "parse_all", "parse_file", "list_modelica_files", "flatten_class"})
     ctx.notes["source_fingerprint"] = {"tools/compiler.py": fp}
     skel_term = tie(ctx)
-    cases, n_corpus = make_cases(ctx)
+    cases, n_corpus = make_cases(ctx, casadi_bias=(skel_term == "head_skel"))
     # the children are independent: 4 chunks in parallel
     from concurrent.futures import ThreadPoolExecutor
     k = 4
@@ -690,8 +740,9 @@ def run(ctx):
         "BaseException-only classes (KeyboardInterrupt, SystemExit from below main) are not modelled",
         "argparse itself is not modelled: whether argv is accepted is a fact (set by the generator's construction "
         "of the malformed argv and confirmed by the observed SystemExit(2))",
-        "PATH arguments do not overlap (a file is never listed twice); exit status is main's return value / "
-        "SystemExit code, not the 8-bit process status",
+        "PATH arguments overlap (a file listed more than once) only in -t casadi invocations, where each listing "
+        "counts as a file named like the model; exit status is main's return value / SystemExit code, not the "
+        "8-bit process status",
         "ground truth of 'model fails' = that model alone on a fresh copy of the tree with a fresh parse "
         "(tree.flatten / sympy generate+write / casadi transfer_model)",
     ]
